@@ -147,7 +147,7 @@ fn hash_all() -> Vec<Op> {
 
 /// A compute node: fan out `breadth` children, each stores its index (children in `failing`
 /// panic), optionally asking PredicateExists (shared lazy cache).
-fn compute_node(tag: Word, breadth: Word, failing: &[Word], pex: bool) -> Vec<Op> {
+fn compute_node(tag: Word, breadth: Word, failing: &[Word], pex: Option<[Word; 4]>) -> Vec<Op> {
     let mut v = vec![push(tag), asm::Stack::Pop.into()];
     v.extend(hash_all());
     v.push(push(breadth));
@@ -155,14 +155,32 @@ fn compute_node(tag: Word, breadth: Word, failing: &[Word], pex: bool) -> Vec<Op
     for f in failing {
         v.extend([asm::Stack::Dup.into(), push(*f), asm::Pred::Eq.into(), asm::TotalControlFlow::PanicIf.into()]);
     }
-    if pex {
-        v.extend([push(1), push(2), push(3), push(4), asm::Access::PredicateExists.into(), asm::Stack::Pop.into()]);
+    if let Some(h) = pex {
+        // every child asks the shared lazily initialised cache for a solution that exists and
+        // fails if it is not found
+        for w in h {
+            v.push(push(w));
+        }
+        let tail: [Op; 3] = [asm::Access::PredicateExists.into(), asm::Pred::Not.into(), asm::TotalControlFlow::PanicIf.into()];
+        v.extend(tail);
     }
     v.extend([push(1), asm::Memory::Alloc.into(), asm::Stack::Pop.into()]);
     v.extend([asm::Stack::Dup.into(), push(0), asm::Memory::Store.into()]);
     v.push(asm::Compute::ComputeEnd.into());
     v.push(push(tag));
     v
+}
+
+/// The words under which `PredicateExists` finds a solution.
+fn pex_words(data: &[Vec<Word>], contract: &ContentAddress, predicate: &ContentAddress) -> [Word; 4] {
+    let mut words: Vec<Word> = Vec::new();
+    for slot in data {
+        words.push(slot.len() as Word);
+        words.extend_from_slice(slot);
+    }
+    words.extend(essential_types::convert::word_4_from_u8_32(contract.0));
+    words.extend(essential_types::convert::word_4_from_u8_32(predicate.0));
+    essential_types::convert::word_4_from_u8_32(essential_hash::hash_words(&words))
 }
 
 fn digest_node(tag: Word) -> Vec<Op> {
@@ -216,9 +234,13 @@ fn build(seed: u64) -> Built {
         // graph: root(compute) -> {mid1(compute), mid2(digest)} -> leaves
         let breadth = 2 + rng.below(4) as Word;
         let failing: Vec<Word> = if rng.below(4) == 0 { (0..breadth).filter(|_| rng.below(2) == 0).collect() } else { vec![] };
+        let contract = ContentAddress([s as u8 % 2 + 1; 32]);
+        let pred_addr = ContentAddress([100 + s as u8; 32]);
+        let data = vec![vec![s as Word, (seed % 1000) as Word]];
+        let me = pex_words(&data, &contract, &pred_addr);
         let progs: Vec<Vec<Op>> = vec![
-            compute_node(t + 1, breadth, &[], rng.below(2) == 0),
-            compute_node(t + 2, 2 + rng.below(3) as Word, &failing, true),
+            compute_node(t + 1, breadth, &[], if rng.below(2) == 0 { Some(me) } else { None }),
+            compute_node(t + 2, 2 + rng.below(3) as Word, &failing, Some(me)),
             digest_node(t + 3),
             data_leaf(t + 4, 70 + s as Word),
             true_leaf(t + 5, rng.below(8) == 0),
@@ -244,12 +266,11 @@ fn build(seed: u64) -> Built {
             nodes: (0..7).map(|i| Node { edge_start: starts[i], program_address: addrs[i].clone() }).collect(),
             edges,
         };
-        let contract = ContentAddress([s as u8 % 2 + 1; 32]);
-        let pa = PredicateAddress { contract, predicate: ContentAddress([100 + s as u8; 32]) };
+        let pa = PredicateAddress { contract, predicate: pred_addr };
         predicates.insert(pa.clone(), Arc::new(pred));
         solutions.push(Solution {
             predicate_to_solve: pa,
-            predicate_data: vec![vec![s as Word]],
+            predicate_data: data,
             state_mutations: if rng.below(2) == 0 { vec![Mutation { key: vec![60 + s as Word], value: vec![s as Word] }] } else { vec![] },
         });
     }
@@ -294,9 +315,8 @@ fn errname(e: &essential_vm::error::OpError<String>) -> String {
     d.split(|c: char| !c.is_alphanumeric()).next().unwrap_or("").to_string()
 }
 
-fn run_checker(b: &Built, threads: usize, collect_all: bool) -> String {
+fn run_on(pool: &rayon::ThreadPool, b: &Built, collect_all: bool) -> String {
     let (set, preds, progs, st) = b;
-    let pool = rayon::ThreadPoolBuilder::new().num_threads(threads).build().expect("pool");
     let r = pool.install(|| {
         sol::check_and_compute_solution_set_two_pass(
             st,
@@ -309,17 +329,34 @@ fn run_checker(b: &Built, threads: usize, collect_all: bool) -> String {
     project(r)
 }
 
+fn pool(threads: usize) -> rayon::ThreadPool {
+    rayon::ThreadPoolBuilder::new().num_threads(threads).build().expect("pool")
+}
+
+/// Two different sets checked one after the other on the same pool of k threads (history:
+/// whatever a worker thread remembers from the first check must not leak into the second),
+/// each compared with its result on a fresh one-thread pool.
 fn checker_mode(seed: u64) -> i32 {
-    let b = build(seed);
+    let a = build(seed);
+    let b = build(seed.wrapping_mul(7919).wrapping_add(13));
     let collect_all = seed % 2 == 0;
-    let reference = run_checker(&b, 1, collect_all);
     let k = 2 + (seed % 3) as usize;
-    let got = run_checker(&b, k, collect_all);
-    if got != reference {
-        println!("VIOLATION-DETAIL checker seed={seed}: 1 thread: {reference} | {k} threads: {got}");
+    let shared = pool(k);
+    let got_a = run_on(&shared, &a, collect_all);
+    // drop the first set's allocations so that the second may be placed where the first was
+    let ref_a = run_on(&pool(1), &a, collect_all);
+    drop(a);
+    let got_b = run_on(&shared, &b, collect_all);
+    let ref_b = run_on(&pool(1), &b, collect_all);
+    if got_a != ref_a {
+        println!("VIOLATION-DETAIL checker seed={seed}: first set, 1 thread: {ref_a} | {k} threads: {got_a}");
         return 1;
     }
-    println!("ok checker seed={seed} threads={k} result={}", &reference[..reference.len().min(60)]);
+    if got_b != ref_b {
+        println!("VIOLATION-DETAIL checker seed={seed}: second set on the same {k}-thread pool: {got_b} | fresh 1-thread pool: {ref_b}");
+        return 1;
+    }
+    println!("ok checker seed={seed} threads={k} results={} | {}", &ref_a[..ref_a.len().min(40)], &ref_b[..ref_b.len().min(40)]);
     0
 }
 
